@@ -12,11 +12,14 @@ def main():
     patch = os.path.join(seed, "patch.diff")
     res = {"seed": seed, "props": props}
     sh("git checkout -- . && git clean -fdq", cwd=wt)
-    rc0, _, _ = sh(f"/venv/bin/python {seed}/demo.py", cwd=wt)
+    import shutil
+    shutil.copy(os.path.join(seed, "demo.py"), os.path.join(wt, "_seed_demo.py"))  # the demo is specified to run from the repo root
+    rc0, _, _ = sh("/venv/bin/python _seed_demo.py", cwd=wt)
     rc, out, err = sh(f"git apply {patch}", cwd=wt)
     if rc != 0:
         print("PATCH DOES NOT APPLY", err); return 2
-    rc1, out1, err1 = sh(f"/venv/bin/python {seed}/demo.py", cwd=wt)
+    shutil.copy(os.path.join(seed, "demo.py"), os.path.join(wt, "_seed_demo.py"))
+    rc1, out1, err1 = sh("/venv/bin/python _seed_demo.py", cwd=wt)
     res["demo_clean_rc"], res["demo_patched_rc"] = rc0, rc1
     res["demo_patched_tail"] = (out1 + err1)[-300:]
     env = dict(os.environ, VERIF_REPO=wt, VERIF_TIER=tier, VERIF_EVIDENCE_DIR="/tmp/wt/eval_evidence")
